@@ -43,7 +43,7 @@ CHECKS = {
  "C17": ("TLA+ repetition bag model: TLC on MC_Engine (RegInvariant) + trace validation of shuffling histories and Game-API games",
          "reported occurrence counts compared with the model's bag of full positions (placement, side, rights, ep) along recorded histories with recurrences, triangulation, rights loss, ep opportunities and interleaved undo; Game-API shuffle games must be drawn at the third occurrence.",
          "5 C17", "Game-level part is a known finding (D8b) on this tree"),
- "C02": ("TLA+ cache model: TLC on MC_GenCache (reachable engine states share no (key, colour) with different answers; negative control) + Trace_Gen validation of long-lived vs brand-new generator answers",
+ "C02": ("TLA+ cache model: TLC on MC_GenCache (reachable engine states share no (key, colour) with different answers; two negative controls: stale-ep key, placement-only cache index) + Trace_Gen validation of long-lived vs brand-new generator answers",
          "a long-lived generator is compared with one that cannot hold a cached entry at every node of perft-shaped walks (start position to ply 4), games with backtracking and searches; the alarm is the property's own sentence; TLC replays the cache as a map and names the positions that shared a key.",
          "5 C02", "hook H1 provides the capacity-1 reference generator; attack maps compared on a sample"),
  "C10": ("TLA+ state graph of the rules (Oracle_Graph) -> path counts; replayed against every counting entry point",
